@@ -513,6 +513,16 @@ def gen_fn(out, unit, f, sf, meta, probe):
                 start = pos + 1
                 if bmask[pos]:
                     break
+        if ins.where == 'inside':
+            # at the start of the block that opens after the anchor (a match arm `PAT => {`, an `if … {`)
+            j = pos
+            while j < len(body) and not (bmask[j] and body[j] == '{'):
+                j += 1
+            if j >= len(body):
+                raise GenError('%s: insert-inside anchor %r opens no block' % (fnq, ins.anchor))
+            le = body.find('\n', j)
+            edits.append((le + 1, 2, 'insert', tmp, None))
+            continue
         if ins.where == 'before':
             ls_ = body.rfind('\n', 0, pos) + 1
             if body[ls_:pos].strip():
